@@ -3,12 +3,14 @@
 Bounded-exhaustive sweep (mc.boundx) of allocation trees x instance populations
 against a reference written from the statement (mc/c06_model.py), plus a small
 sweep through the real `Loader.load_allocations / load_app / find_assignment`
-on an in-memory backend (mc/c06_loader.py).  Nothing is sampled; the exact
+on an in-memory backend (mc/c06_loader.py) and a bounded-exhaustive sweep of
+Loader histories that re-read priorities (mc/c06_reprio.py).  Nothing is sampled; the exact
 products swept are listed in the evidence (`slices`, `loader_slice`).
 """
 from mc import boundx
 from mc import c06_model as M
 from mc import c06_loader as L
+from mc import c06_reprio as R
 
 BUDGET = {'quick': 240, 'thorough': 3000}
 
@@ -44,6 +46,12 @@ ASSUMPTIONS = [
     'adjustments (DESIGN 5/C06 X)',
     'loader slice: the backend is an in-memory object with get / get_default '
     '/ list; servers are attached to the Loader cell by the harness',
+    're-prioritisation slice: first-come is the order of the submit events; '
+    'a priority re-read (manifest or assignment) through Loader.load_app / '
+    'load_allocations + load_apps must not change it; histories start from '
+    'an empty cell and have exactly the stated depth',
+    'deep-tree slices: forests of 4-5 nodes up to depth 4-5 below the '
+    'partition root with the reduced menus ND / ND2 / IZ',
 ]
 
 MUST_FIRE = (
@@ -108,9 +116,22 @@ def run(ctx):
                            % (res.cases, total))
     lres = boundx.sweep(L.chunks(tier), L.worker, workers=ctx.workers)
     ctx.log('loader sweep done: %d cases in %.1fs' % (lres.cases, lres.wall_s))
+    rres = boundx.sweep(R.chunks(tier), R.worker, workers=ctx.workers)
+    ctx.log('re-prioritisation sweep done: %d histories in %.1fs'
+            % (rres.cases, rres.wall_s))
+    rdesc = R.describe(tier)
+    if rres.cases != rdesc['histories']:
+        raise RuntimeError('C06: swept %d histories, stated %d'
+                           % (rres.cases, rdesc['histories']))
     counters = dict(res.counters)
     for k, v in lres.counters.items():
         counters['loader_' + k] = v
+    for k, v in rres.counters.items():
+        counters['reprio_' + k] = v
+    for k in R.MUST_FIRE:
+        if not counters.get('reprio_' + k):
+            raise RuntimeError('C06: vacuous re-prioritisation sweep, %s '
+                               'never fired' % k)
     if res.exhaustive:
         for k in MUST_FIRE:
             if not counters.get(k):
@@ -121,18 +142,22 @@ def run(ctx):
     show, show_viol = _showcase()
     for v in show_viol:
         res.note(v)
-    violations = res.violation_list() + lres.violation_list()
-    cases = res.cases + lres.cases + len(SHOWCASE)
-    entries = counters.get('queue_entries', 0) + counters.get(
-        'loader_queue_entries', 0)
+    violations = (res.violation_list() + lres.violation_list() +
+                  rres.violation_list())
+    cases = res.cases + lres.cases + rres.cases + len(SHOWCASE)
+    entries = (counters.get('queue_entries', 0) +
+               counters.get('loader_queue_entries', 0) +
+               counters.get('reprio_queue_entries', 0))
     cov = {
         'states': cases,
         'transitions': entries,
         'traces_validated_against_impl': cases,
         'executions': cases,
-        'evaluations': counters.get('judgements', 0) + counters.get(
-            'loader_judgements', 0),
-        'distinct_nontrivial': res.nontrivial + lres.nontrivial,
+        'evaluations': (counters.get('judgements', 0) +
+                        counters.get('loader_judgements', 0) +
+                        counters.get('reprio_judgements', 0)),
+        'distinct_nontrivial': (res.nontrivial + lres.nontrivial +
+                                rres.nontrivial),
         'rule': RULE,
         'what_is_counted': {
             'states': 'distinct inputs (tree, population in arrival order), '
@@ -142,14 +167,17 @@ def run(ctx):
                            '_find_placements)',
             'evaluations': 'observed orders judged against the reference'},
         'nontrivial_counters': counters,
-        'samples': show + res.samples[:3] + lres.samples[:2],
-        'exhaustive': bool(res.exhaustive and lres.exhaustive),
-        'caps_hit': res.caps_hit + lres.caps_hit,
+        'samples': (show + res.samples[:3] + lres.samples[:2] +
+                    rres.samples[:2]),
+        'exhaustive': bool(res.exhaustive and lres.exhaustive and
+                           rres.exhaustive),
+        'caps_hit': res.caps_hit + lres.caps_hit + rres.caps_hit,
         'slices': slices,
         'node_menus': M.NODE_MENUS,
         'instance_menus': {k: [list(map(_plain, v)) for v in m]
                            for k, m in M.INST_MENUS.items()},
         'loader_slice': L.describe(tier),
+        'reprio_slice': rdesc,
         'clauses': [
             'each-instance-exactly-once', 'ranks-non-decreasing',
             'allocation-priority-order', 'priority-zero-last-in-rank',
@@ -196,6 +224,8 @@ def replay(ctx, data):
         return c06_moves.replay_moves(ctx, data)
     if data.get('kind') == 'loader':
         out = L.replay_case(data['case'])
+    elif data.get('kind') == 'reprio':
+        out = R.replay_case(data['case'])
     else:
         case = data['case']
         obs = M.observe(case)
